@@ -71,7 +71,7 @@ def mutants(kind, b, rng, quick):
 
 
 def run(ctx):
-    ok = vf.build_harness(ctx, ('default', 'alt')); ok = vf.build_coq(ctx) and ok
+    ok = vf.build_harness(ctx, ('default', 'alt'), optional=('alt',)); ok = vf.build_coq(ctx) and ok
     vf.forbidden_scan(ctx); vf.proof_obligations(ctx)
     if ctx.tier == 'thorough': vf.coqchk(ctx, 'C14')
     if not ok: vf.finish(ctx)
@@ -80,6 +80,7 @@ def run(ctx):
     cp = vf.ROOT + '/corpus/C14.txt'
     if vf.os.path.exists(cp): corpus = [l.strip() for l in open(cp) if l.strip()]
     for cfg in ('default', 'alt'):
+        if cfg in ctx.unbuilt: continue
         gen = subprocess.run([vf.harness_bin('worker', cfg), 'gen'], capture_output=True, text=True).stdout.strip().split('\n')
         objs = [(l.split(' ')[0], bytes.fromhex(l.split(' ')[1])) for l in gen]
         objfile = f'{vf.ROOT}/.tmp/c14-objects-{cfg}.txt'; vf.os.makedirs(vf.ROOT + '/.tmp', exist_ok=True); open(objfile, 'w').write('\n'.join(gen) + '\n')
